@@ -1000,7 +1000,7 @@ def mk_min(vals, facts, kind="min"):
     return Lin({(kind, tuple(sorted(keep, key=repr))): 1})
 
 
-def find_witness(symbols, facts, bad, ranges=None, limit=40):
+def find_witness(symbols, facts, bad, ranges=None, limit=40, reject=None):
     """search small integer assignments of the free symbols that satisfy every fact that speaks about them and make `bad(assign)` true.
     Facts are evaluated concretely; the other symbols such a fact mentions are searched too (small range); a candidate for which a
     relevant fact cannot be evaluated is not a witness.  A witness is a counter-example *under the tests the code itself performs*.
@@ -1051,6 +1051,8 @@ def find_witness(symbols, facts, bad, ranges=None, limit=40):
     # tests on opaque things (isinstance(x, str), a callable's result) cannot be searched: give up rather than ignore them
     if len(symbols) + len(extra) > 4:
         return None
+    if reject is not None and any(reject(a) for a in symbols + extra):
+        return None                 # a quantity that is not free to choose (the result of a call this engine does not know, ...)
     import itertools
     rng = [range(*(ranges or {}).get(s, (0, limit))) for s in symbols] + [range(*(ranges or {}).get(s, (0, 13))) for s in extra]
     allsyms = symbols + extra
@@ -3561,6 +3563,11 @@ class Engine:
             return base[1][ival(idx)]
         if isinstance(base, tuple) and base[:1] == ("obj",) and is_int_const(idx) and -len(base[2]) <= ival(idx) < len(base[2]):
             return base[2][ival(idx)][1]
+        if isinstance(base, tuple) and base[:1] == ("range",) and is_int_const(base[3]) and ival(base[3]) > 0 and isinstance(idx, Lin):
+            if idx.is_const() and idx.c == -1:
+                return lin(base[1]) + floordiv(lin(base[2]) - 1 - lin(base[1]), ival(base[3])).scale(ival(base[3]))      # the last value (of a range that has one)
+            if not (idx.is_const() and idx.c < 0):
+                return lin(base[1]) + idx.scale(ival(base[3]))
         col = None
         full = ("sl", Lin(), ("k", None), Lin(c=1))
         if isinstance(idx, tuple) and idx[:1] == ("tuple",) and len(idx[1]) == 2 and idx[1][0] == full and is_int_const(idx[1][1]):
